@@ -1,10 +1,12 @@
 import Driver.Drv.Lru
+import Driver.Drv.Race
 import Driver.Drv.Stop
 import Driver.Drv.Store
 namespace Driver
 
 def drivers : List (String × CaseFn) := [
   ("lru", Driver.Drv.Lru.runCase),
+  ("race", Driver.Drv.Race.runCase),
   ("stop", Driver.Drv.Stop.runCase),
   ("store", Driver.Drv.Store.runCase)]
 
